@@ -52,6 +52,7 @@ type valCase struct {
 	Pair    string      `json:"pair"`
 	// Prerun: command lines run first on the same application object (their outcome is dropped)
 	Prerun   [][]string `json:"prerun"`
+	PreSpec  *string    `json:"prespec"` // the spec string in force during the earlier runs
 	ExtraEnv bool       `json:"extraenv"` // the plain bool option -x is backed by an environment variable that is set
 	Conv    bool        `json:"conv"`      // declare through the convenience methods (BoolOpt(name, value, desc), ...Ptr): no env, no SetByUser
 }
@@ -551,6 +552,9 @@ func runValues(c valCase) (r valResult) {
 			r.Value2 = read2()
 		}
 	}
+	if c.PreSpec != nil && len(c.Prerun) > 0 {
+		app.Spec = *c.PreSpec
+	}
 	for _, pre := range c.Prerun {
 		func() {
 			defer func() { recover() }()
@@ -559,6 +563,9 @@ func runValues(c valCase) (r valResult) {
 		r.Ran, sbu = false, false
 		log = nil
 		errBuf.Reset()
+	}
+	if c.PreSpec != nil && len(c.Prerun) > 0 {
+		app.Spec = c.Spec
 	}
 	argv := c.Argv
 	if len(c.ArgvHex) > 0 {
